@@ -3,7 +3,9 @@ import os, shutil, subprocess
 
 THEOREMS = {
     "C06": ["db_methods_locked", "db_methods_present", "render_path_readonly"],
-    "C05": ["ctx_fields_classified", "ctx_fields_present"],
+    "C05": ["ctx_fields_classified", "ctx_fields_present", "reset_touches_cleared", "reset_truncates_stores",
+            "setters_leave_one_representation", "slot_blocks_present", "ctxvar_fields_known"],
+    "C15": ["setters_leave_one_representation", "slot_blocks_present", "ctxvar_fields_known"],
     "C19": ["ctx_fields_classified", "ctx_fields_present"],
 }
 
